@@ -153,6 +153,19 @@ register("C04",
          "TLA+ fold model checked by TLC + TLC trace validation against an independent brute-force oracle folded by the spec",
          "DESIGN.md §4 C04")
 
+register("C16",
+         "Radial.tla defines the intended distances of every request form (list in any order, scalar, linspace(a<=b[,num]), "
+         "range/arange) on exact rationals together with increments and shell boundaries, and TLC checks the interleaving "
+         "r_k < R_k < r_{k+1} with R_k the midpoint, the last-boundary and single-radius rules and positivity of increments "
+         "over all requests from an 8-value pool. Every abstract request (quick ~1000, thorough ~9000) is rendered in 3-4 "
+         "concrete syntaxes (brackets, tuples, bare commas, linspace/np.linspace, range/arange, whitespace and decimal "
+         "spelling variants) and handed to the real TranslationParser; TLC validates distances, rejection of negatives, "
+         "increments, boundaries and, as a state carried along the trace, that equal bit patterns carry equal identifiers.",
+         "Decimals from the stated pools (units 10^-3 nm); distances compared at 1e-5 A; linspace with start > stop left open; "
+         "17 range() inputs whose float arange length includes the stop value are listed as known findings.",
+         "TLA+ rational model checked by TLC + TLC trace validation of the parser on rendered strings",
+         "DESIGN.md §4 C16")
+
 ALL = [f"C{i:02d}" for i in range(1, 21)]
 
 
